@@ -202,6 +202,62 @@ Proof. exact stack_nested_same. Qed.
 (* ====================================================================== non-vacuity *)
 (* a 2x3 mask with a masked corner and anisotropic scales; a function returning pairs; lists; the fits hypotheses *)
 Local Close Scope R_scope.
+(* ---------------------------------------------------------------------- 5. native storage (store_native=True, .native, results of
+   arithmetic on such structures): the unmasked entries are what counts, whatever the masked entries of the array hold *)
+Theorem C17_native_roundtrip : forall (A : Type) (junk : A) (bits : list bool) (v : list A),
+  length v = count1 bits -> slim_by bits (native_by junk bits v) = v.
+Proof. exact (@slim_by_native_by). Qed.
+Theorem C17_native_slim_is_kth_unmasked : forall (A : Type) (bits : list bool) (v : list A),
+  slim_by bits v = unmasked_of bits v.
+Proof. exact (@slim_by_unmasked_of). Qed.
+(* a natively stored Grid1D / Grid2D is, for every decorator, the slim grid with the same unmasked entries *)
+Theorem C17_native_grid1d_is_slim_grid : forall (O : NumOps) (m : @mask1 O) (xs : list (T O)) (junk : T O),
+  length xs = count1 (bits1 m) -> grid1d_of_native m (native_by junk (bits1 m) xs) = G1D m xs.
+Proof. exact (@grid1d_native_is_slim). Qed.
+Theorem C17_native_grid2d_is_slim_grid : forall (O : NumOps) (m : @mask2 O) (cs : list (@pt O)) (junk : @pt O),
+  length cs = count2 (bits2 m) -> grid2d_of_native m (native_by junk (concat (bits2 m)) cs) = G2D m cs.
+Proof. exact (@grid2d_native_is_slim). Qed.
+(* to_array / to_grid / to_vector_yx on a natively stored Grid2D with a pointwise function written for native grids: entry k of
+   the returned container is h at the coordinate of the k-th unmasked pixel, on the grid's mask *)
+Theorem C17_native_grid2d_entry_k : forall (O : NumOps) (h : @pt O -> T O) (m : @mask2 O) (nc : list (@pt O)),
+  length nc = length (concat (bits2 m)) ->
+  maker_result_native ToArray (fun g => Ok (One (Vals (map h (coords_of g))))) m nc
+  = Ok (OOne (Array2D m (map h (slim_by (concat (bits2 m)) nc)))).
+Proof. exact (@native_grid2d_pointwise). Qed.
+Theorem C17_native_grid2d_entry_k_pairs : forall (O : NumOps) (d : maker) (h : @pt O -> @pt O) (m : @mask2 O) (nc : list (@pt O)),
+  d <> ToArray -> length nc = length (concat (bits2 m)) ->
+  maker_result_native d (fun g => Ok (One (Pairs (map h (coords_of g))))) m nc
+  = Ok (OOne (match d with
+              | ToVector => Vector2D m (slim_by (concat (bits2 m)) nc) (map h (slim_by (concat (bits2 m)) nc))
+              | _ => Grid2D m (map h (slim_by (concat (bits2 m)) nc))
+              end)).
+Proof. exact (@native_grid2d_pointwise_pairs). Qed.
+
+(* ---------------------------------------------------------------------- 6. histories on living grid / profile objects.
+   A history (decorated calls, any decorator and profile object, and the user's in-place edits grid[k] = p between them) is
+   accepted exactly when every call, taken as a single fresh call on the contents that the user's edits -- and nothing else --
+   left in the grid, is accepted and left the grid's array as it was: the result after a history is the pure function of the
+   current contents. *)
+Theorem C17_history_calls_are_pure : forall (cen : @mask2 QOps -> list ptQ) (chk : callc -> gspec -> bool) (l : list hstep)
+    (gs : list gspec) (i gi : nat) (c : callc) (post : list ptQ),
+  hist_ok cen chk gs l = true -> nth_error l i = Some (HCall gi c post) ->
+  exists s, nth_error (state_after cen gs (firstn i l)) gi = Some s
+            /\ chk c s = true /\ list_eqb peq (stored cen s) post = true.
+Proof. exact hist_ok_calls. Qed.
+Theorem C17_history_accepts_pure_calls : forall (cen : @mask2 QOps -> list ptQ) (chk : callc -> gspec -> bool) (l : list hstep)
+    (gs : list gspec),
+  (forall i gi k p, nth_error l i = Some (HEdit gi k p) -> nth_error (state_after cen gs (firstn i l)) gi <> None) ->
+  (forall i gi c post, nth_error l i = Some (HCall gi c post) ->
+     exists s, nth_error (state_after cen gs (firstn i l)) gi = Some s
+               /\ chk c s = true /\ list_eqb peq (stored cen s) post = true) ->
+  hist_ok cen chk gs l = true.
+Proof. exact hist_ok_intro. Qed.
+Theorem C17_history_verdict_is_per_call : forall e gs l i gi c post,
+  agree (KHist e gs l) = true -> nth_error l i = Some (HCall gi c post) ->
+  exists s, nth_error (state_after (@grid_via_mask QOps) gs (firstn i l)) gi = Some s
+            /\ agree_call (unit_of e) c s = true /\ list_eqb peq (stored (@grid_via_mask QOps) s) post = true.
+Proof. exact agree_hist_calls. Qed.
+
 Local Open Scope Q_scope.
 Definition ex_mask : @mask2 QOps :=
   @Build_mask2 QOps [[true; false; false]; [false; false; true]] (2 # 1, 1 # 2) (1 # 2, 1 # 4).
@@ -213,7 +269,7 @@ Example C17_hyps_mirror_satisfiable :
   /\ fits ToVector g pairs = true
   /\ forallb (fits ToGrid g) [pairs; @Pairs QOps (coords_of g)] = true
   /\ fits ToArray (G1D (@Build_mask1 QOps [true; false; false] 1 0) [1 # 2; 3 # 2]) (@Vals QOps [5; 6]) = true
-  /\ rout_near (maker_result ToArray (uapply (@F1 QOps (@FV QOps (@SAff QOps 3 1 0)))) g)
+  /\ rout_near 1 (maker_result ToArray (uapply (@F1 QOps (@FV QOps (@SAff QOps 3 1 0)))) g)
                (Ok (OOne (@Array2D QOps ex_mask [19 # 4; 21 # 4; - 7 # 4; - 5 # 4]))) = true
   /\ @spec_centres QOps ex_mask = coords_of g.
 Proof. vm_compute. repeat split. Qed.
@@ -222,6 +278,19 @@ Example C17_hyps_projected_satisfiable :
   @spec_projected QOps ex_mask (1 # 2, - 1 # 4) (3 # 5, 4 # 5) false
   = [(1 # 2, - 1 # 4); (- 11 # 10, 19 # 20)] /\
   @projected_2d QOps ex_mask (1 # 2, - 1 # 4) (3 # 5, 4 # 5) false = [(1 # 2, - 1 # 4); (- 11 # 10, 19 # 20)].
+Proof. vm_compute. repeat split. Qed.
+(* native storage: mask x O O x, array (9, 1, 2, 9): the slim content is (1, 2); a history: edit entry 1 of an irregular grid *)
+Example C17_hyps_native_history_satisfiable :
+  slim_by [true; false; false; true] [9; 1; 2; 9] = [1; 2]
+  /\ native_by 0 [true; false; false; true] [1; 2] = [0; 1; 2; 0]
+  /\ count1 [true; false; false; true] = 2%nat
+  /\ state_after (@spec_centres QOps) [SIrr [(1, 2); (3, 4)]]
+       [HEdit 0 1 (5, 6); HCall 0 (CMake ToArray (@F1 QOps (@FV QOps (@SAff QOps 1 1 0))) [(1, 2); (5, 6)]
+                                     (Ok (OOne (@ArrayIrr QOps [3; 11])))) [(1, 2); (5, 6)]]
+     = [SIrr [(1, 2); (5, 6)]]
+  /\ check (KHist 0 [SIrr [(1, 2); (3, 4)]]
+       [HEdit 0 1 (5, 6); HCall 0 (CMake ToArray (@F1 QOps (@FV QOps (@SAff QOps 1 1 0))) [(1, 2); (5, 6)]
+                                     (Ok (OOne (@ArrayIrr QOps [3; 11])))) [(1, 2); (5, 6)]]) = 0%nat.
 Proof. vm_compute. repeat split. Qed.
 Local Close Scope Q_scope.
 Local Open Scope R_scope.
@@ -255,3 +324,6 @@ Print Assumptions C17_radial_min_at_centre_refuted. Print Assumptions C17_reloca
 Print Assumptions C17_transform_applied_once. Print Assumptions C17_transform_respects_flag. Print Assumptions C17_stack_decomposes.
 Print Assumptions C17_stack_relocates_about_profile_centre. Print Assumptions C17_stack_nested_transforms_once.
 Print Assumptions C17_radial_min_never_closer. Print Assumptions C17_stack_nested_same_argument.
+Print Assumptions C17_native_roundtrip. Print Assumptions C17_native_slim_is_kth_unmasked. Print Assumptions C17_native_grid1d_is_slim_grid.
+Print Assumptions C17_native_grid2d_is_slim_grid. Print Assumptions C17_native_grid2d_entry_k. Print Assumptions C17_native_grid2d_entry_k_pairs.
+Print Assumptions C17_history_calls_are_pure. Print Assumptions C17_history_accepts_pure_calls. Print Assumptions C17_history_verdict_is_per_call.
